@@ -33,7 +33,7 @@ def tlc_accepts(module, cfg, traces, tag="ACC", batch=3000, deque=False):
 
 
 LEVEL_A = {"memlog": ("MemLogA", "MemLogA.cfg"), "filedest": ("FileConcA", "FileConcA_loose.cfg"), "handover": ("HandoverA", "HandoverA.cfg"),
-           "once": ("OnceA", "OnceA.cfg"), "writer": ("WriterA", "WriterA.cfg"), "fanout": ("FanoutA", "FanoutA.cfg")}
+           "once": ("OnceA", "OnceA.cfg"), "writer": ("WriterA", "WriterA.cfg"), "fanout": ("FanoutA", "FanoutA.cfg"), "regrace": ("RegA", "RegA.cfg")}
 
 
 def replay(prop, obj, path):
